@@ -355,8 +355,14 @@ func c22(p *core.Program, r *core.Report) {
 	la := newLockAnalysis(p, lockSpec{pkgRel: "", typ: "cluster", mutex: "mu", guarded: set("jobs", "currentJob"),
 		setup: map[string]string{"newCluster": "constructor"}})
 	if la != nil {
-		r.Rule("R7", "guarded-by cluster.mu: the job table (jobs, currentJob) is accessed only with cluster.mu held")
+		r.Rule("R7", "guarded-by cluster.mu / resizeJob.mu: the job table (jobs, currentJob) is accessed only with cluster.mu held, a job's state and per-node completion map only with the job's mutex held, every lock is released on every exit, and no method that takes a job's mutex is called while it is held (self-deadlock of the completion handler)")
 		la.report(r, "R7")
+	}
+	lj := newLockAnalysis(p, lockSpec{pkgRel: "", typ: "resizeJob", mutex: "mu", guarded: set("state", "IDs"),
+		setup: map[string]string{"newResizeJob": "constructor"}})
+	if lj != nil {
+		n := lj.report(r, "R7")
+		r.Floor("C22/R7 functions touching resizeJob state", n, 3)
 	}
 }
 
